@@ -142,5 +142,53 @@ def run(ck):
         ok = out.kind == 'return' and len(cl) == 2 and cl[0] is cr and concrete(cl[-1].attrs['results']) == want
         ck.ob('C04.store', f'compute_aggregate(single result {list(combo)})', ok, key='PandasStore.compute_aggregate:single-result',
               what=f'compute_aggregate with one collected result {list(combo)}: roll-up {concrete(cl[-1].attrs["results"]) if len(cl) == 2 else "missing"}, expected {want}')
+    run_level_rollup(ck)
     ck.floor('C04.table', 300)
     ck.floor('C04.store', 20)
+
+
+def run_level_rollup(ck):
+    """The roll-up of a whole run, as a user gets it (stream -> PandasStore -> compute_aggregate): at every row the worst flag among the tests
+    that *evaluated* that row (the rows of each context's window), MISSING where no test did - "ignoring not-evaluated entries"."""
+    from ..interp import AbsRaise
+    from ..streams_h import Table, make_config_source, run_frontend, test_menu
+    from .c05 import t
+    r, it = ck.runner, ck.runner.interp
+    PS = it.module('ioos_qc.stores').globals['PandasStore']
+    conc = {'a': [1, 5, 30, 3, 9], 'b': [2, 2, 2, 2, 50], 'lat': [1, 2, 3, 4, 5], 'lon': [6, 7, 8, 9, 10]}
+    menu = test_menu()
+    setups = {
+        'two-windows-leaving-a-row-out': [dict(window=(t(0), t(2)), tests={'a': ['gross', 'spike'], 'b': ['gross']}),
+                                          dict(window=(t(3), t(4)), tests={'a': ['gross'], 'b': ['flat']})],
+        'one-window': [dict(window=(t(1), t(4)), tests={'a': ['gross', 'spike', 'roc']})],
+        'whole-record': [dict(window=(None, None), tests={'a': ['gross', 'spike'], 'b': ['gross']})],
+    }
+    for name, contexts in setups.items():
+        for fe in ('numpy', 'pandas'):
+            table = Table(5, streams=('a', 'b'), concrete=conc)
+            run0 = run_frontend(r, fe, table, make_config_source(contexts))
+            label = f'{fe}[{name}] PandasStore.compute_aggregate'
+            ck.count(1, distinct=label)
+            if run0.error is not None:
+                ck.violate('C04.run', f'{fe}:stream-raises', f'{label}: the stream raises {run0.error.exc}')
+                continue
+            # what each test reported, row by row (from the stream's own ContextResults)
+            rows = [[] for _ in range(table.n)]
+            for (sid, pkg, test, mask, flags, cr) in run0.results:
+                idx = [i for i, m in enumerate(mask) if m == 'true']
+                vals = concrete(flags)
+                for pos, i in enumerate(idx):
+                    fl, masked = vals[pos]
+                    if masked is False and len(fl) == 1:
+                        rows[i].append(int(fl[0]))
+            want = [([str(expected(col))], False) for col in rows]
+            try:
+                ps = it.instantiate(PS, [list(run0.context_results)], {}, None)
+                it.call(it.getattr(ps, 'compute_aggregate', None), [], {}, None)
+            except AbsRaise as e:
+                ck.violate('C04.run', f'{fe}:compute_aggregate-raises-{e.exc.tname}', f'{label}: raises {e.exc.tname}{e.exc.args}')
+                continue
+            roll = ps.attrs['collected_results'][-1]
+            got = concrete(roll.attrs['results'])
+            ck.ob('C04.run', label, got == want, key='PandasStore.compute_aggregate:run-level-rollup',
+                  what=f'{label}: roll-up {got}; the worst flag among the tests that evaluated each row (MISSING where none did) is {want}')
